@@ -281,7 +281,8 @@ fn split_type(node_type: &str) -> (&str, Option<&str>) {
     if let Some((abbreviation, type_name)) = node_type.split_once(':') {
         (type_name, Some(abbreviation))
     } else {
-        (node_type, None)
+        // an unprefixed name is in the default namespace (bound to the empty prefix), if there is one
+        (node_type, Some(""))
     }
 }
 
